@@ -205,6 +205,95 @@ def operand_walk_rule(rep, repo):
     rep.floor("format strings of the %-based formatter helpers", n_fmt, 30)
 
 
+def listing_row_rule(rep, T, F, B):
+    """R9: decided on the text Instruction.disassemble produces with the arguments the listing loop really passes in each configuration"""
+    from ..fold import FoldError, PyExc
+    I = F.modules["xdis.instruction"].ns.get("Instruction")
+    dis_m = B.lookup("dis") if isinstance(B, ClassRef) else None
+    disfn = I.lookup("disassemble") if isinstance(I, ClassRef) else None
+    if not isinstance(dis_m, FuncRef) or not isinstance(disfn, FuncRef):
+        raise AnalysisError("anchor vanished: xdis.bytecode.Bytecode.dis / xdis.instruction.Instruction.disassemble")
+    fields = [a.target.id for a in I.node.body if isinstance(a, ast.AnnAssign) and isinstance(a.target, ast.Name)]
+    if "starts_line" not in fields or "is_jump_target" not in fields:
+        raise AnalysisError("anchor vanished: Instruction.starts_line / is_jump_target")
+
+    def concrete(opc, vt, line, target):
+        i = Instance(I)
+        for f in fields:
+            i.attrs[f] = None
+        i.attrs.update(opcode=opc.ns["opmap"]["LOAD_CONST"], opname="LOAD_CONST", arg=1, argval="x", argrepr="'xyz'", offset=10, starts_line=line, is_jump_target=target, optype="const",
+                       has_arg=True, inst_size=3 if vt < (3, 6) else 2, has_extended_arg=False, fallthrough=True)
+        return i
+    n = 0
+    for mname, opc in sorted(T.reachable.items()):
+        if "LOAD_CONST" not in opc.ns.get("opmap", {}):
+            continue
+        vt = tuple(opc.ns["version_tuple"][:2])
+        for fmt in ("classic", "bytes"):
+            self_ = Instance(B)
+            self_.attrs.update(opc=opc, codeobj=Sym("co", "obj!"), current_offset=None, _cell_names=Sym("cells", "tuple"), _linestarts=Sym("linestarts", "dict"), _line_offset=0,
+                               exception_entries=None)
+            sp = Spec(F, opaque_funcs={"get_instructions_bytes", "getline", "get_docstring"})
+
+            def mk(spec, gen, tag):
+                i = Instance(I)
+                for f in fields:
+                    i.attrs[f] = Sym("instr." + f, "obj")
+                return i
+            sp.gen_elem_hook = mk
+            calls = []
+
+            def hook(spec, name, fv, args, kw, node):
+                if name.endswith("get_instructions_bytes"):
+                    return Sym("instructions_gen", "gen", {})
+                if name.endswith("Instruction.disassemble"):
+                    calls.append((list(args), dict(kw)))
+                    return Sym("row", "str")
+                return NotImplemented
+            sp.hooks.append(hook)
+            sp.run(dis_m, [self_], dict(asm_format=fmt, show_source=False))
+            cfg = "%s@%s" % (fmt, mname.split(".")[-1])
+            if not calls:
+                rep.ob("R9", dis_m.qualname, "%s:renders-through-Instruction.disassemble" % cfg, False, expected="a call of Instruction.disassemble in the listing loop", derived="none seen")
+                continue
+            n += 1
+            bad = []
+            undecided = False
+            for args, kw in calls:
+                def neutral(a):
+                    if isinstance(a, (Sym, Op, Guard)):
+                        k_ = getattr(a, "kind", "")
+                        return {} if k_ == "dict" else ([] if k_ == "list" or "mutated" in show(a) else False)
+                    return a
+                a2 = [neutral(a) for a in args]
+                k2 = {k: neutral(v_) for k, v_ in kw.items()}
+                try:
+                    t_line = F.apply(disfn, [concrete(opc, vt, 777, False)] + a2, dict(k2))
+                    t_none = F.apply(disfn, [concrete(opc, vt, None, False)] + a2, dict(k2))
+                    t_tgt = F.apply(disfn, [concrete(opc, vt, None, True)] + a2, dict(k2))
+                except (PyExc, FoldError) as ex:
+                    undecided = True
+                    rep.note("R9 %s: the row text could not be folded (%s)" % (cfg, str(ex)[:80]))
+                    continue
+                if not all(isinstance(t, str) for t in (t_line, t_none, t_tgt)):
+                    undecided = True
+                    continue
+                if "777" not in t_line:
+                    bad.append("the row of an instruction that starts line 777 does not show it: %r" % t_line)
+                if "777" in t_none:
+                    bad.append("a line number is shown for an instruction that starts no line: %r" % t_none)
+                if ">>" not in t_tgt or ">>" in t_none:
+                    bad.append("'>>' mark: jump target %r / other %r" % (t_tgt, t_none))
+                for what, tok in (("offset", "10"), ("opcode name", "LOAD_CONST"), ("operand text", "'xyz'")):
+                    if tok not in t_none.split() and tok not in t_none:
+                        bad.append("%s %s missing from the row %r" % (what, tok, t_none))
+            if undecided and not bad:
+                continue
+            rep.ob("R9", dis_m.qualname, "%s:row-shows-line-mark-offset-name-operand" % cfg, not bad, expected="line number iff starts_line, '>>' iff jump target, offset, opcode name, operand",
+                   derived=bad[:3] or "as expected", msg="; ".join(bad[:2]))
+    rep.floor("listing rows decided per (table, format)", n, 40)
+
+
 def _decoder_work(mname):
     from . import dis_rules
     return dis_rules.table_worker(mname, ("C02", "C03", "C04"))
@@ -227,6 +316,9 @@ def run(rep, tier):
     rep.rule("R8", "every operand formatter registered in a table's opcode_arg_fmt returns a string for each operand value the compiler of that table's versions can emit "
                    "(RAISE_VARARGS 0-3 in Python 1/2 and 0-2 in 3, IS_OP / CONTAINS_OP / CALL_FUNCTION_EX 0-1, FORMAT_VALUE 0-7, MAKE_FUNCTION 0-15 from 3.6, BINARY_OP 0-25, "
                    "the intrinsic numbers, sample magnitudes elsewhere); evaluated by the folder on those finite domains")
+    rep.rule("R9", "per opcode table and for the classic and bytes formats: the arguments Bytecode.dis() -> disassemble_bytes hands to Instruction.disassemble (captured at the "
+                   "call, whatever their form) are given to the real Instruction.disassemble with a concrete instruction, and the folded text shows the line number iff the "
+                   "instruction starts a line, '>>' iff it is a jump target, and its offset, opcode name and operand text")
     rep.rule("R5", "the instruction records the listing renders are the decoder's: per (opcode table, opcode) the offset/width/operand (C02 rules), "
                    "the operand value and text (C03 rules) and the jump target and label set (C04 rules) agree with Lib/dis.py of that version")
     T = tables()
@@ -408,6 +500,8 @@ def run(rep, tier):
             gens = [e for e in sp.effects if e.kind == "gen"]
             rep.ob("R2", db.qualname, "%s:source-is-instruction-stream" % cfg, len(gens) == 1 and show(gens[0].args[1][0]) == "code", expected="get_instructions_bytes(bytecode, ...)",
                    derived=[show(g.args[1]) for g in gens][:2])
+    # ---------------------------------------------------------------- R9 what the listing row of an instruction shows (per table, through Bytecode.dis)
+    listing_row_rule(rep, T, F, B)
     # ---------------------------------------------------------------- R3 rendering def-use
     I = F.modules["xdis.instruction"].ns.get("Instruction")
     dis = I.lookup("disassemble") if isinstance(I, ClassRef) else None
